@@ -12,22 +12,49 @@ from ..probe import Probe, ProbeDied
 
 PROP = "C17"
 D1 = 'D1_dirty_edge_ignores_discovered_inputs'
+D19 = 'D19_scan_time_dyndep_output_cycle_depends_on_visit_order'
 
 
 def find_cycle(g, targets, disc=None, phony_filter=True):
     """reference: is there a cycle in the part of the graph needed for targets (inputs of every kind + valid discovered
-    deps; validations are additional roots, not edges)? returns list of edge keys on a cycle or None"""
-    prod = producer_map(g)
+    deps + what the dyndep files of *reached* statements add; validations are additional roots, not edges)?
+    returns list of edge keys on a cycle or None"""
     disc = disc or {}
-    color = {}
-    roots = list(targets)
-    found = []
+    base = {}
+    for e in g['edges']:
+        for o in all_outs(e):
+            base[o] = e
 
     def ins_of(e):
-        ins = e['exp'] + e['imp'] + e['oo'] + list(disc.get(key(e), []))
+        ins = e['exp'] + e['imp'] + e['oo'] + list(disc.get(key(e), [])) + models.dd_inputs(g, e) + ([e['dd']] if e.get('dd') else [])
         if phony_filter and e['phony'] and len(all_outs(e)) == 1 and not e['imp']:
             ins = [i for i in ins if i != key(e)]       # the documented legacy self-reference filter
         return ins
+
+    # statements whose dyndep information ninja gets to see: those reached from the targets (fixpoint, because an
+    # implicit output added by a reached statement makes that statement the producer of a file)
+    prod = dict(base)
+    while True:
+        reached, todo = set(), list(targets)
+        while todo:
+            n = todo.pop()
+            e = prod.get(n)
+            if e is None or key(e) in reached:
+                continue
+            reached.add(key(e))
+            todo += ins_of(e) + e.get('vals', [])
+        newprod = dict(base)
+        loaded = set(e['dd'] for e in g['edges'] if key(e) in reached and e.get('dd'))     # a dyndep file is loaded as a whole
+        for e in g['edges']:
+            if e.get('dd') in loaded:
+                for o in e.get('dd_outs', []):
+                    newprod[o] = e
+        if newprod == prod:
+            break
+        prod = newprod
+    color = {}
+    roots = list(targets)
+    found = []
 
     def visit(n, stack):
         e = prod.get(n)
@@ -66,12 +93,12 @@ def check_cycle_message(g, err, disc):
         e = prod.get(a)
         if e is None:
             return "printed cycle goes through %r which no statement produces" % a
-        if b not in e['exp'] + e['imp'] + e['oo'] + list(disc.get(key(e), [])):
+        if b not in e['exp'] + e['imp'] + e['oo'] + list(disc.get(key(e), [])) + models.dd_inputs(g, e) + ([e['dd']] if e.get('dd') else []):
             return "printed hop %s -> %s is not an input of the statement producing %s" % (a, b, a)
     return None
 
 
-def judge(sim, g, targets, res, phony_err=False, disc=None, model=None, files_before=None):
+def judge(sim, g, targets, res, phony_err=False, disc=None, model=None, files_before=None, inject=None):
     """compare one invocation with the reference; returns (why, known_sig) or None"""
     disc = disc or {}
     cyc = find_cycle(g, targets, disc, phony_filter=not phony_err)
@@ -83,15 +110,28 @@ def judge(sim, g, targets, res, phony_err=False, disc=None, model=None, files_be
             p = model.plan(g, files_before, targets, cf_dirty_ignores_discovered=True)
             if p['error'] is None and p['ignored']:
                 return ("cycle through discovered inputs not diagnosed (statement already dirty)", D1)
-        return ("cycle %s in the needed part of the graph is not diagnosed: phase=%s status=%s err=%r started=%s" % (cyc, res['phase'], res['status'], res['err'], starts), None)
+        sig = None
+        if inject is not None and inject.get('kind') == 'dyndep_out_cycle' and (
+                not inject.get('mid_build') or inject.get('consumed_by') not in starts):
+            # known finding D19: the output is added by a dyndep file that is loaded during the initial scan, after the
+            # statement consuming that file (then still a plain source) has been visited, or mid-build while that
+            # statement is up to date and therefore not part of the plan; in both cases it is not re-scanned
+            sig = D19
+        return ("cycle %s in the needed part of the graph is not diagnosed: phase=%s status=%s err=%r started=%s" % (cyc, res['phase'], res['status'], res['err'], starts), sig)
     if reported and not cyc:
         return ("acyclic graph rejected as cyclic: %r (targets %s)" % (res['err'], targets), None)
     if reported:
         bad = check_cycle_message(g, res['err'], disc)
         if bad:
             return (bad, None)
-        if starts:
-            return ("commands %s were run although a cycle was diagnosed" % starts, None)
+        # statements of the cycle must not be started once the cycle is known: from the beginning for a cycle visible at
+        # scan time, after the dyndep file's producer has finished for one that appears mid-build
+        cyc_edges = set(cyc)
+        ddfin = [ev['seq'] for ev in res['trace'] if ev['ev'] == 'finish' and (sim.edge_by_key(ev['edge']) or {}).get('is_dd_producer')] if sim else []
+        after = max(ddfin) if ddfin else -1
+        late = [ev['edge'] for ev in res['trace'] if ev['ev'] == 'start' and ev['seq'] > after and ev['edge'] in cyc_edges]
+        if late or (starts and not ddfin):
+            return ("commands %s were run although a cycle was diagnosed" % (late or starts), None)
         if res['status'] == 0:
             return ("cycle diagnosed but the invocation reports success", None)
     return None
@@ -206,6 +246,38 @@ def inject(draw_ints, sim, kind):
         fld = ['exp', 'oo'][b % 2]
         e[fld] = e[fld] + [key(e)]
         return dict(kind=kind, edge=key(e))
+    if kind in ('dyndep_in_cycle', 'dyndep_out_cycle'):
+        bound = [e for e in cmds if e.get('dd')]
+        if not bound:
+            return None
+        e = bound[a % len(bound)]
+        dd = e['dd']
+        if kind == 'dyndep_in_cycle':
+            down = [f for f in cmds if key(e) in simrun.transitive_producers(g, f, {})] + [e]
+            f = down[b % len(down)]
+            e['dd_ins'] = list(e.get('dd_ins', [])) + [all_outs(f)[0]]
+            desc = dict(kind=kind, edge=key(e), gets_input=all_outs(f)[0])
+        else:
+            # a source consumed upstream of e becomes an implicit output of e
+            # (not through the producer of the dyndep file itself: that statement has necessarily completed before the
+            # file can be read, so such a cycle cannot be diagnosed in time by any implementation)
+            ddprod = set(simrun.transitive_producers(g, dict(outs=['\0probe'], exp=[dd], imp=[], oo=[]), {})) | {dd}
+            ups = [sim.edge_by_key(k) for k in simrun.transitive_producers(g, e, {}) if k not in ddprod]
+            cand = [(u, i) for u in ups for i in u['exp'] + u['imp'] if i in g['srcs']]
+            if not cand:
+                return None
+            u, srcname = cand[b % len(cand)]
+            e['dd_outs'] = list(e.get('dd_outs', [])) + [srcname]
+            desc = dict(kind=kind, edge=key(e), gets_output=srcname, consumed_by=key(u))
+        text = models.dyndep_text(g, dd)
+        if g['dd_files'][dd]['produced']:
+            pe = sim.edge_by_key(dd)
+            pe['content_override'] = {dd: dict(by='', table={}, default=text)}
+            sim.write(pe['exp'][0], sim.new_content(pe['exp'][0], 5))      # the producer is dirty: the file is loaded mid-build
+            desc['mid_build'] = True
+        else:
+            sim.write(dd, text)
+        return desc
     if kind == 'validation_back':
         # acyclic control: a statement validates something that depends on it
         pairs = [(sim.edge_by_key(ek), f) for f in cmds for ek in simrun.transitive_producers(g, f, {})]
@@ -218,7 +290,8 @@ def inject(draw_ints, sim, kind):
     return None
 
 
-KINDS = ['manifest_exp', 'manifest_imp', 'manifest_oo', 'depfile', 'depslog', 'phony_self', 'validation_back']
+KINDS = ['manifest_exp', 'manifest_imp', 'manifest_oo', 'depfile', 'depslog', 'phony_self', 'validation_back', 'dyndep_in_cycle', 'dyndep_out_cycle',
+         'dyndep_in_cycle', 'dyndep_out_cycle']
 
 
 def run_cycle_case(probe, g, ops, inj):
@@ -247,8 +320,20 @@ def run_cycle_case(probe, g, ops, inj):
         findings = []
         outs = [key(e) for e in sim.g['edges']]
         tsets = [[t] for t in outs] + [outs]
+        import os
+        logs = {}
+        for fn in (".ninja_log", ".ninja_deps"):
+            pth = os.path.join(sim.logdir, fn)
+            logs[fn] = open(pth, "rb").read() if os.path.exists(pth) else None
         for targets in tsets[:8]:
-            valid, = (None,)
+            # every target set is judged from the same state: put the logs back as well
+            for fn, data in logs.items():
+                pth = os.path.join(sim.logdir, fn)
+                if data is None:
+                    if os.path.exists(pth):
+                        os.unlink(pth)
+                else:
+                    open(pth, "wb").write(data)
             files_before = copy.deepcopy(sim.files)
             model = sim.model.clone()
             p = model.plan(sim.g, sim.files, targets)
@@ -269,7 +354,9 @@ def run_cycle_case(probe, g, ops, inj):
             labels.add('cyclic_closure' if cyc else 'acyclic_closure')
             if cyc and kind in ('depfile', 'depslog'):
                 labels.add('cycle_via_discovered')
-            out = judge(sim, sim.g, targets, r, phony_err=bool(phony_err), disc=disc_all, model=model, files_before=files_before)
+            if cyc and kind.startswith('dyndep') and desc.get('mid_build'):
+                labels.add('cycle_appears_mid_build')
+            out = judge(sim, sim.g, targets, r, phony_err=bool(phony_err), disc=disc_all, model=model, files_before=files_before, inject=desc)
             if out:
                 findings.append(dict(prop=PROP, kind=out[0], detail=dict(inject=desc, targets=targets, manifest=graphs.manifest(sim.g)), known=out[1]))
                 break
@@ -287,7 +374,7 @@ def gen_worker(widx, n_examples):
         @hseed(common.sub_seed(PROP, widx))
         @settings(max_examples=n_examples, deadline=None, database=None, suppress_health_check=list(HealthCheck),
                   phases=[Phase.generate, Phase.shrink], verbosity=Verbosity.quiet, report_multiple_bugs=False)
-        @given(graphs.graphs(max_edges=7, features=dict(unordered_hidden=False)), graphs.histories(max_ops=4, with_failures=False),
+        @given(graphs.graphs(max_edges=7, features=dict(unordered_hidden=False, dyndep='some')), graphs.histories(max_ops=4, with_failures=False),
                st.tuples(st.sampled_from(KINDS), st.integers(0, 40), st.integers(0, 40), st.integers(0, 40), st.booleans(), st.booleans()))
         def test(g, ops, inj):
             case = dict(g=g, ops=ops, inj=list(inj))
@@ -338,10 +425,10 @@ def run(tier):
                       "exhaustive: every graph of 2 statements over 3 files (thorough: 4 files) where each statement may name every other file and itself as explicit / implicit / "
                       "order-only input or validation and every graph of 3 statements over 3 files with explicit / order-only inputs, every single target; generated: "
                       "graphs up to 7 statements with a short history, then one injection (manifest cycle through an explicit, implicit or order-only input of "
-                      "any length incl. length one, cycle closed by a depfile, by the deps log when a recorded header becomes an output, phony self-reference "
+                      "any length incl. length one, cycle closed by a depfile, by the deps log when a recorded header becomes an output, by a dyndep file (added input, or added output that an upstream statement consumes; file present at scan time or produced mid-build), phony self-reference "
                       "in both -w modes, or the acyclic control 'validation depends on its requester'), judged for every single target and for all targets. "
                       "Oracle: reference DFS on the needed closure; the printed cycle is checked hop by hop. Non-trivial = the requested closure is cyclic.",
-                      ["cycles appearing mid-build through dyndep files are part of C11's domain here"])
+                      ["for a cycle that appears when a dyndep file is loaded mid-build, statements that were started before the load cannot be held back; none may start after it"])
     # quick: 2 statements over 3 files (all 5 kinds) and 3 statements over 3 files (explicit / order-only);
     # thorough: the same over 4 files (4.7 M invocations for the 2-statement family)
     nf = 4 if thorough else 3
